@@ -465,10 +465,11 @@ func (c *Ctx) applyContract(st *State, fr *Frame, ins ssa.Instruction, ct *Contr
 		}
 	}
 	// old() of the postconditions is evaluated before the frame is forgotten
-	cache := map[*SNode]specVal{}
-	c.captureOld(env, ct.Ensures, cache)
-	env.oldCache = cache
 	env.preAlloc = c.Arr(st, famAlloc, ArraySort(SInt, SBool))
+	env.oldArrays = make(map[string]Term, len(st.arrays))
+	for fam, t := range st.arrays {
+		env.oldArrays[fam] = t
+	}
 	// frame
 	c.havocForContract(st, fr, env, ct, f)
 	// results
@@ -609,7 +610,21 @@ func (c *Ctx) havocItem(st *State, env *specEnv, item string) error {
 		return nil
 	case strings.HasPrefix(item, "ghost "):
 		name := strings.TrimSpace(item[6:])
-		c.HavocFam(st, "GH|"+name)
+		gd := c.Ghosts[name]
+		if gd == nil {
+			return fmt.Errorf("unknown ghost state %q", name)
+		}
+		pkg := env.pkg
+		if p := c.LemmaPkg["ghost:"+name]; p != nil {
+			pkg = p.Types
+		}
+		fam, sort, _, _, err := c.ghostFam(gd, pkg)
+		if err != nil {
+			return err
+		}
+		// the pre-state version must exist before it is forgotten (old() refers to it)
+		c.Arr(st, fam, sort)
+		c.HavocFam(st, fam)
 		return nil
 	case strings.HasPrefix(item, "chan "):
 		e, err := ParseSpecExpr(strings.TrimSpace(item[5:]))
